@@ -52,6 +52,7 @@ class Injector:
 def load_pf():
     spec = importlib.util.spec_from_file_location('parse_folder_verif', os.path.join(common.REPO, 'user_scripts', 'parse_folder.py'))
     m = importlib.util.module_from_spec(spec)
+    sys.modules['parse_folder_verif'] = m     # so that multiprocessing can pickle Computator by reference
     spec.loader.exec_module(m)
     return m
 
